@@ -130,6 +130,11 @@ class C13(Property):
             sub = [a for a in ALPHA if a.split(":")[1] in (bits(0.0), bits(1.0))]
             for combo in itertools.product(sub, repeat=5):
                 cases.append(Case("cpops " + " ".join(combo + (PROBE_TOKS,)), tags=("exhaustive-2times-len5",)))
+        # timing points whose every payload field varies (beat length, omit-first-bar-line, signature), over three times
+        tvar = [f"T:{bits(t)}:{bits(b)}:{o}:{n}" for t in (0.0, 1.0, 2.0) for (b, o, n) in ((500.0, 0, 4), (500.0, 1, 4), (250.0, 1, 3), (500.0, 0, 3))]
+        for k in (2, 3, 4) if tier == "quick" else (2, 3, 4, 5):
+            for combo in itertools.product(tvar, repeat=k):
+                cases.append(Case("cpops " + " ".join(combo + (PROBE_TOKS,)), tags=("exhaustive-timing-payload",)))
         # F8 witnesses and neighbours
         for a, b in [(PZERO, NZERO), (NZERO, PZERO), (PZERO, PZERO), (NZERO, NZERO)]:
             for kind in "TDES":
@@ -161,8 +166,10 @@ class C13(Property):
             for _ in range(rng.choice([2, 3, 5, 8, 13, 21, 34, 60])):
                 t = rng.choice(pool)
                 r = rng.random()
-                if r < 0.2:
+                if r < 0.1:
                     toks.append(f"T:{t}:{bits(rng.choice([500.0, 250.0, 1.0, 0.0, -100.0, 1e9, float('inf'), 6.0, 60000.0, 5.999, float('nan')]))}")
+                elif r < 0.2:   # every payload field of a timing point varies: beat length, omit-first-bar-line, signature
+                    toks.append(f"T:{t}:{bits(rng.choice([500.0, 500.0, 250.0, 400.0]))}:{rng.choice('01')}:{rng.choice([4, 4, 3, 7, 1])}")
                 elif r < 0.45:
                     sv = rng.choice([1.0, 1.0, 2.0, 1.0 + eps / 2, 1.0 + 2 * eps, 0.05, 0.1, 10.0, 20.0, float("nan"), 0.75, rng.uniform(0, 12)])
                     toks.append(f"D:{t}:{bits(sv)}:{rng.choice('1110')}")
